@@ -41,6 +41,29 @@ def from_location(fn, expr, seen=None):
     return False
 
 
+def unknown_live_enforced(ctx, ep, live, rule):
+    """with no live object given (a freshly created entry or the staged '#new' copy) ensure_perms enforces every attribute"""
+    # nothing known about the live object (a freshly created entry / staged copy): every attribute is enforced.  The switches
+    # are the boolean locals in the guards of the three syscalls; on the `live is None` side each must be the constant True.
+    switches = {}
+    for d, c in os_calls(ep):
+        gd = [p for p in A.parents(c) if isinstance(p, ast.If)]
+        for nm in (sorted(A.names_in(gd[0].test)) if gd else []):
+            if any(isinstance(v, ast.Constant) and isinstance(v.value, bool) for _, v, _ in A.assignments(ep.node, nm)):
+                switches[nm] = d
+    ctx.require(len(switches) == 3, f"ensure_perms: the three enforcement switches were not found in the guards of lchown/chmod/utime ({sorted(switches)})")
+    unk = M.guarded(ep.node.body, f"{live} is None")
+    ctx.require(len(unk) >= 1, f"ensure_perms: the `{live} is None` decision was not found")
+    ifn, arm = unk[0][0], unk[0][1]
+    for nm, d in sorted(switches.items()):
+        vals = [v for _, v, _ in A.assignments(ast.Module(body=list(arm), type_ignores=[]), nm)]
+        if not vals:   # set once before the decision and only revised when the live object is known
+            vals = [v for st in ep.node.body if st.lineno < ifn.lineno and isinstance(st, (ast.Assign, ast.AnnAssign)) for t, v, _ in A.assignments(ast.Module(body=[st], type_ignores=[]), nm)][-1:]
+        ok = bool(vals) and all(A.is_const(v, True) for v in vals)
+        ctx.check(rule, ep, ok, f"unknown-live-enforces:{d}", f"with no live object given, {d} is not skipped (`{nm}` is True)",
+                  f"ensure_perms: when nothing is known about the live object (`{live} is None`: a freshly created entry or staged copy) `{nm}` is `{A.unparse(vals[0]) if vals else '<unset>'}` instead of True, so {d} can be skipped and the entry keeps whatever the creating process gave it", node=(vals[0] if vals else ifn))
+
+
 def run(ctx):
     P = ctx.program
     ctx.explanation = META["level"]
@@ -71,7 +94,8 @@ def run(ctx):
     # every call targets the entry's own location
     for d, c in os_calls(ep):
         ctx.check("R1", ep, A.unparse(c.args[0]) == f"{entry}.location", f"target:{d}", f"{d} is applied to the entry's own location", node=c)
-    ctx.floor("R1", 9)
+    unknown_live_enforced(ctx, ep, live, "R1")
+    ctx.floor("R1", 12)
 
     # ---- R2 merge_contents ------------------------------------------------------------
     mc = P.func(MOD, "merge_contents")
